@@ -163,12 +163,12 @@ def _inv_affine(n0: int, n1: int, d0: int) -> Tuple[List[int], List[int]]:
 def ratfunc(r: random.Random, itype: str, ptype: str, k: int, lok: str, hik: str) -> J:
     bits = bits_for(itype, k)
     b = breakpoints(r, itype, bits, 2, integral=(k % 2 == 0))
-    form = k % 7
+    form = k % 9
     lo_l, hi_l = lim(b[0], lok, k % 2 == 1), lim(b[1], hik, k % 2 == 0)
     sc: J = {"lo": lo_l, "hi": hi_l}
     m: J = {"cat": "RAT-FUNC", "i2p": {"scales": [sc]}}
     variant = ["affine+inverse", "quadratic", "linear/linear", "no-denominator", "affine-no-p2i",
-               "affine+inverse", "moebius+inverse"][form]
+               "affine+inverse", "moebius+inverse", "reciprocal", "denominator-of-higher-degree"][form]
     if form in (0, 4, 5):
         n1, d0 = [(2, 1), (1, 1), (-3, 1), (1, 2), (3, 1), (-1, 1), (5, 2), (1, 10)][(k // 6) % 8]
         n0 = OFFSETS[(k // 6) % len(OFFSETS)]
@@ -204,6 +204,15 @@ def ratfunc(r: random.Random, itype: str, ptype: str, k: int, lok: str, hik: str
             pl, ph = float(ylo), float(yhi)
         m["p2i"] = {"scales": [{"lo": (pl, "CLOSED"), "hi": (ph, "CLOSED"),
                                 "num": [n0, -d0], "den": [-n1, d1]}]}
+    elif form == 7:
+        # n0 / (d0 + d1 x): the denominator has MORE coefficients than the numerator
+        lo, hi = domain(itype, bits)
+        sc["num"] = [[1000, -360, 7][k % 3]]
+        sc["den"] = [hi + 3 + (k % 4), 1] if k % 2 else [-(lo - 5), 1]
+    elif form == 8:
+        # (n0 + n1 x) / (d0 + d1 x + d2 x^2) with a denominator without real roots
+        sc["num"] = [[250, -40, 1][k % 3], [0, 4, -3][(k // 3) % 3]]
+        sc["den"] = [[1, 0, 1], [2, 1, 1], [5, -2, 1]][(k // 9) % 3]
     elif form == 2:
         # (n0 + n1 x) / (d0 + d1 x) with a pole outside of the sampled domain
         lo, hi = domain(itype, bits)
@@ -292,8 +301,11 @@ def scaleratfunc(r: random.Random, itype: str, ptype: str, k: int, nsc: int) -> 
         hi_kind = ["closed", "open", "infinite", "missing"][(k // 4) % 4] if i == nsc - 1 \
             else JUNCTIONS[(k + i + 1) % len(JUNCTIONS)][0]
         sc: J = {"lo": lim(b[i], lo_kind), "hi": lim(b[i + 1], hi_kind)}
-        f = (k + i) % 4
-        if f == 0:
+        f = (k + i) % 5
+        if f == 4:
+            # a segment whose denominator is of higher degree than its numerator
+            sc["num"], sc["den"] = [[90, -17][k % 2]], [[1, 0, 1], [3, 1, 1]][(k // 2) % 2]
+        elif f == 0:
             sc["num"], sc["den"] = [OFFSETS[(k + i) % len(OFFSETS)], 1, 1], [[1], [2], [10]][k % 3]
         elif f == 1:
             sc["num"], sc["den"] = [i, [2, -3, 1][k % 3]], [1]
@@ -375,7 +387,11 @@ def texttable(r: random.Random, itype: str, k: int, nsc: int, variant: str) -> J
             lo_v, hi_v = b[i], b[i + 1]
             if variant == "ranges-gaps" and i:
                 lo_v = min(lo_v + (2 if itype in INTS else 0.5), hi_v)
-            sc["lo"], sc["hi"] = lim(lo_v, lo_kind, True), lim(hi_v, hi_kind, True)
+            # (an INFINITE limit is written with or without a - meaningless - value)
+            sc["lo"], sc["hi"] = lim(lo_v, lo_kind, (k // 2) % 2 == 0), lim(hi_v, hi_kind, (k // 3) % 2 == 0)
+            if sc["lo"][0] is None and (sc["hi"] is None or sc["hi"][0] is None):
+                # (no value anywhere: nothing the text could be converted back to)
+                sc["lo"] = lim(lo_v, lo_kind, True)
             if variant in ("ranges+inv", "default+inv") or (variant == "dup-text" and k % 2):
                 mid = b[i] + (b[i + 1] - b[i]) // 2 if itype in INTS else (b[i] + b[i + 1]) / 2
                 sc["inv"] = {"v": mid}
